@@ -8,8 +8,8 @@ from .common import add_failure, bump, new_outcome, rat, unrat
 from . import c15_util as U
 
 PROP = "C15"
-PROPS_FILES = ["CogentModel/Props/C15.lean"]
-LEAN_TARGETS = ["CogentModel.Props.C15"]
+PROPS_FILES = ["CogentModel/Props/C15.lean", "CogentModel/Props/C15NJ.lean", "CogentModel/Props/C15UPGMA.lean"]
+LEAN_TARGETS = ["CogentModel.Props.C15", "CogentModel.Props.C15NJ", "CogentModel.Props.C15UPGMA"]
 DRIVER = "drv_c15"
 TRUSTED = [
     "hand-written models lean/CogentModel/Model/{Distance,NJ,UPGMA}.lean of fast_distance / nj / UPGMA "
@@ -65,18 +65,6 @@ def _impl_matrix(calc, aln, names):
     dup = c.duplicated or {}
     _impl_matrix.last_dup_names = set(dup) | {x for v in dup.values() for x in v}
     return mat, seqs
-
-
-def _model_variant():
-    """which duplicate test the tree under test implements: 'asis' (no off-diagonal count => alias) or
-    'repaired' (alias only for equal index arrays) -- decided by a behavioural probe on the witness alignment"""
-    names = ["s0", "s1", "s2"]
-    aln = _make_aln(list(zip(names, ["ACGTNN", "ACGTAC", "ACGATT"])), "dna")
-    try:
-        mat, _ = _impl_matrix("pdist", aln, names)
-    except Exception:
-        return "asis"
-    return "repaired" if mat[1][2] == 0.5 and mat[0][2] == 0.25 else "asis"
 
 
 def _impl_distance_matrix(calc, aln, names):
@@ -284,8 +272,6 @@ def correspondence(ctx):
         ("dna", "ACGT", [("s0", "AACCTTAACC"), ("s1", "ACCCTTAACT"), ("s2", "ACCCTTAAGT")]),
     ]
     reqs, meta = [], []
-    variant = _model_variant()
-    bump(out, "duplicate_test_variant", variant)
     for ai, (moltype, canon, seqs) in enumerate(alns):
         names = [n for n, _ in seqs]
         aln = _make_aln(seqs, moltype, array_align=(ai % 3 != 0))
@@ -296,7 +282,7 @@ def correspondence(ctx):
                 add_failure(out, "corr", f"implementation raised {type(e).__name__} ({calc})", dict(moltype=moltype, seqs=seqs, calc=calc), "a matrix", repr(e), confirmed=False)
                 continue
             pub = _impl_distance_matrix(calc, aln, names)
-            reqs.append(("dist", dict(calc=calc, seqs=idx, variant=variant)))
+            reqs.append(("dist", dict(calc=calc, seqs=idx)))
             meta.append((moltype, seqs, calc, mat, pub))
     replies = ctx.driver.batch(reqs)
     for (moltype, seqs, calc, mat, pub), rep in zip(meta, replies):
